@@ -133,7 +133,7 @@ def orbit(case):
     v["seqs"] = _from_columns(names, dbl)
     out.append(("merged-columns", v, 2.0))
     # 6 tip states <-> tip partials (ambiguous symbols treated as missing in both)
-    if not case["use_ambiguities"] and not (case["datatype"]["kind"] == "general" and any(isinstance(a, list) for a in case["datatype"].get("amb", {}).values())):
+    if not case["use_ambiguities"]:
         v = copy.deepcopy(case)
         v["use_tip_states"] = not case["use_tip_states"]
         out.append(("tip-representation", v, 1.0))
